@@ -155,7 +155,7 @@ class VariableSetProcessor(Collector):
         """Get the text to use when the value is interpolated into a log message (str can fail on user types)."""
         try:
             return str(value)
-        except Exception:
+        except BaseException:
             return f'{type(value)}@{id(value)}'
 
     def search_function(self, node: Node) -> bool:
